@@ -203,7 +203,7 @@ def random_history(rng, profile):
             ops.append({"op": "add", "id": nid, "t": "c", "k": 2 * b, "k2": 2 * b + 1, "j": 0})
             nid += 1
         if profile == "kf_multinull":
-            # ... and one document WITHOUT a value in that multi-valued segment (recorded finding F49)
+            # ... and one document WITHOUT a value in that multi-valued segment (finding F49, repaired)
             ops.append({"op": "add", "id": nid, "t": "c", "k": -1, "j": 0})
             nid += 1
         if profile == "nullstack":
@@ -272,8 +272,8 @@ KF_F49 = ("merge of a sorted index stacks the segments although a MULTI-VALUED s
 
 
 def known_finding_f49(ctx):
-    """dedicated reproduction of the recorded finding F49 (the default profiles steer around it: multi-valued sort columns
-    either have overlapping ranges or no document without a value)"""
+    """regression family of finding F49 (repaired in /repo, commit 1a4dac47a): multi-valued sort columns with disjoint value
+    ranges AND documents without a value (the default profiles steer around that combination)"""
     rng = random.Random(ctx.seed + 48)
     hs = []
     for j in range(2):
@@ -300,7 +300,7 @@ def known_finding_f49(ctx):
             ctx.violation(f"SortedIndexTrace: {why}", [p], json.dumps(evt)[:3000])
     ctx.cov["kf_f49_reproduced"] = seen
     if not seen:
-        log("[C17] note: the recorded finding F49 (stacking with nulls in a multi-valued sort column) did not reproduce")
+        log(f"[R] F49 regression family (multi-valued sort column with documents without a value, disjoint ranges): {len(runs)} runs accepted")
 
 
 def sorted_driver_runs(ctx):
